@@ -39,7 +39,7 @@ def rand_date(rng: random.Random, lo=2008, hi=2020) -> str:
     return f"{y:04d}-{m:02d}-{d:02d}"
 
 
-def gen_leaf(rng, *, always=False, allow_null=True, lo=0.0, hi=10.0):
+def gen_leaf(rng, *, always=False, allow_null=True, lo=0.0, hi=10.0, boolean=False):
     """[[date, value|None|'expected'], ...] (unordered on purpose)."""
     n = rng.randint(1, 5)
     dates = set()
@@ -54,6 +54,8 @@ def gen_leaf(rng, *, always=False, allow_null=True, lo=0.0, hi=10.0):
             v = None
         elif r < 0.22 and d != "1900-01-01" and not always:
             v = "expected"
+        elif boolean:
+            v = rng.random() < 0.5
         else:
             v = round(rng.uniform(lo, hi), 2)
         out.append([d, v])
@@ -85,6 +87,11 @@ def gen_tree(rng: random.Random) -> dict:
             z: {"kind": "node", "children": {k: gen_leaf(rng, always=True, allow_null=False) for k in ("x", "y")}}
             for z in ("za", "zb", "zc")[: rng.randint(2, 3)]
         },
+    }
+    # a group of flags (bool values); only the first is defined at every date
+    tree["flags"] = {
+        "kind": "node",
+        "children": {"f0": gen_leaf(rng, always=True, allow_null=False, boolean=True), "f1": gen_leaf(rng, boolean=True), "f2": gen_leaf(rng, boolean=True)},
     }
     cuts = sorted({rand_date(rng, 2009, 2019) for _ in range(rng.randint(1, 3))})
     asof = {"before_" + cuts[0].replace("-", "_"): gen_leaf(rng, always=True, allow_null=False)}
@@ -287,6 +294,12 @@ def make_system(parameters: ParameterNode) -> TaxBenefitSystem:
     tbs.add_variables(rp, rpz)
     tbs.parameters = parameters
     return tbs
+
+
+def weekday_text(date: str) -> str:
+    """The same day spelled as an ISO week date (a legal instant)."""
+    y, w, d = datetime.date.fromisoformat(date).isocalendar()
+    return f"{y:04d}-W{w:02d}-{d}"
 
 
 def read_direct(node, path, date):
